@@ -20,8 +20,8 @@ Prefixes == { [k |-> "prefix", segs |-> <<"p">>, trail |-> FALSE], [k |-> "prefi
 Resps    == { [k |-> "resp", tag |-> "R1"], [k |-> "resp", tag |-> "R2"] }
 Hdrs     == { [k |-> "hdr", name |-> "X-A", val |-> "1"] }
 Plain    == Prefixes \cup Resps \cup Hdrs
-Auths    == { [k |-> "basic", user |-> "joe", pw |-> "s:e c"], [k |-> "token", tok |-> "T0K"],
-              [k |-> "client", user |-> "cid", pw |-> "sec"] }
+Auths    == { [k |-> "basic", user |-> "joe", pw |-> "s:~ ?>"], [k |-> "token", tok |-> "T0K"],
+              [k |-> "client", user |-> "cid", pw |-> "s>c~?"] }
 AdapterArgs == { <<a>> : a \in Plain } \cup { <<a, b>> : a \in Prefixes \cup Resps, b \in Prefixes \cup Resps }
 Components == { "c1", "c2", "c0" }                 \* c0 has the empty prefix (base connection itself)
 PrefixOf(comp) == CASE comp = "c1" -> <<"m1">> [] comp = "c2" -> <<"m2", "v">> [] OTHER -> <<>>
